@@ -325,7 +325,7 @@ func (v *View) stoppedAt(inst string, idx int) *APICall {
 		if a.Inst != inst || a.Ret < 0 || a.Ret > idx {
 			continue
 		}
-		if a.IsStop() && a.Result == "ok" {
+		if a.IsStop() && a.Result == "ok" && !v.startDuring(a) {
 			last = a
 		}
 		if a.API == "Start" && a.Result == "ok" {
@@ -341,6 +341,17 @@ func (v *View) stoppedAt(inst string, idx int) *APICall {
 		}
 	}
 	return last
+}
+
+// startDuring: was a successful Start issued while stop call a was still running?
+// (then the two calls race and "after the stop returned" says nothing about the new run)
+func (v *View) startDuring(a *APICall) bool {
+	for _, b := range v.APIs {
+		if b.Inst == a.Inst && b.API == "Start" && b.Result == "ok" && b.Call > a.Call && (a.Ret < 0 || b.Call < a.Ret) {
+			return true
+		}
+	}
+	return false
 }
 
 func fingerprint(parts []string) string {
